@@ -4,6 +4,7 @@ import glob
 import os
 import random
 import re
+import time
 from fractions import Fraction
 
 import vlib
@@ -95,7 +96,7 @@ NODE = re.compile(r"^(var|times|timesrev):(.*)$")
 
 def model_line(hline, strict):
     """harness line -> (driver request, expected harness-side rendering builder) or None."""
-    m = re.match(r"^(pos|neg) atom c=(\S+) rhs=(plus|single) (.*) \| (.*)$", hline)
+    m = re.match(r"^(pos|neg) atom c=(\S+) rhs=(plus|single) (.*?) \| (.*)$", hline)
     if not m:
         return None
     c, nodes, res = m.group(2), m.group(4).split(), m.group(5)
@@ -216,10 +217,39 @@ def parse_tie(ctx, h, exe, n):
 # ---------------------------------------------------------------------------------------------
 # script-level
 # ---------------------------------------------------------------------------------------------
+class Rec:
+    """records ctx calls made in a worker thread; replayed on the real ctx in the main thread"""
+
+    def __init__(self):
+        self.calls = []
+        self.notes = []
+
+    def case(self, **kw):
+        self.calls.append(("case", kw))
+
+    def violation(self, *a):
+        self.calls.append(("violation", a))
+
+    def note(self, s):
+        self.calls.append(("note", s))
+        self.notes.append(s)
+
+    def replay(self, ctx):
+        for k, a in self.calls:
+            if k == "case":
+                ctx.case(**a)
+            elif k == "violation":
+                ctx.violation(*a)
+            elif len([x for x in ctx.notes if x.startswith("undecided")]) < 4:
+                ctx.note(a)
+
+
 def run_script(job):
     d, cmds, text, logic_run = job
     rc, out, err = vlib.run_opensmt(text, timeout=20)
-    return d, cmds, text, logic_run, rc, out, err
+    rec = Rec()
+    info = analyse(rec, d, cmds, text, logic_run, rc, out, err, logic_run != d["logic"])
+    return d, cmds, text, logic_run, rc, out, err, rec, info
 
 
 ANS = ("sat", "unsat", "unknown")
@@ -237,9 +267,11 @@ def analyse(ctx, d, cmds, text, logic_run, rc, out, err, is_twin):
         return info
     if rc < 0 or rc > 1:
         info["status"] = "abort"
-        ctx.case(key=key, nontrivial=True, kind="abort:%s" % tag)
+        m = re.search(r"throwing an instance of '(?:\w+::)*(\w+)'", err or "")
+        how = m.group(1) if m else ("signal%d" % -rc if rc < 0 else "exit%d" % rc)
+        ctx.case(key=key, nontrivial=True, kind="abort:%s:%s" % (tag, how))
         if not is_twin:
-            ctx.violation("abort:%s" % tag,
+            ctx.violation("abort:%s:%s" % (tag, how),
                           "the solver process dies (exit status %s: %s) on a script outside %s instead of answering the offending command with (error ...)"
                           % (rc, (err or out).strip().replace("\n", " ")[:200], logic),
                           dict(script="\n".join(cmds) + "\n", exit_status=rc, stderr=err[-400:], stdout=out[-400:]))
@@ -281,13 +313,22 @@ def analyse(ctx, d, cmds, text, logic_run, rc, out, err, is_twin):
             frames, sig = q[3], q[4]
             A = sc.active_assertions(frames)
             decls = sc.decl_lines(eff_text)
-            if ans == "sat":
-                verdict, detail = sc.judge_sat(sig, d["oracle_logic"], decls, A, model_sx)
-            else:
-                verdict, detail = sc.judge_unsat(sig, d["oracle_logic"], decls, A)
+            for attempt in range(4):
+                try:
+                    if ans == "sat":
+                        verdict, detail = sc.judge_sat(sig, d["oracle_logic"], decls, A, model_sx)
+                    else:
+                        verdict, detail = sc.judge_unsat(sig, d["oracle_logic"], decls, A)
+                except OSError as e:
+                    verdict, detail = "undecided", "glue: %s" % e
+                if "No such file" not in str(detail):
+                    break
+                time.sleep(3)      # the shared evaluator binary is being rebuilt by a concurrent check
         except Exception as e:      # glue could not interpret the effective script: leave undecided, say so
             verdict, detail = "undecided", "glue: %s" % e
         info["verdict"] = verdict
+        if verdict == "undecided" and len([x for x in ctx.notes if x.startswith("undecided")]) < 4:
+            ctx.note("undecided %s answer of %s (%s): %s" % (ans, logic_run, cls, str(detail)[:200]))
         if not is_twin:
             if ans == "sat" and verdict == "refuted-oracles":
                 ctx.violation("wrong-sat:%s" % tag,
@@ -314,7 +355,9 @@ def run(ctx):
     if not h:
         ctx.tie_broken("harness-h_tsolver", hlog)
         return
-    strict = parse_tie(ctx, h, exe, 4000 if ctx.quick else 60000)
+    t0 = time.time()
+    strict = parse_tie(ctx, h, exe, 3000 if ctx.quick else 60000)
+    ctx.note('parse tie: %.1f s' % (time.time() - t0))
 
     # ---- scripts: corpus (the hand-seen defect first), then generated
     items = []
@@ -324,7 +367,7 @@ def run(ctx):
         m = re.search(r"cls=(\S+)", open(p).read())
         items.append(dict(cmds=cmds, logic=logic, cls=m.group(1) if m else "corpus", twin={"QF_IDL": "QF_LIA", "QF_RDL": "QF_LRA"}.get(logic),
                           family="corpus", oracle_logic="ALL", text=og.with_marks(cmds)))
-    n = 220 if ctx.quick else 5000
+    n = 160 if ctx.quick else 5000
     for i in range(n):
         r = random.Random(ctx.seed * 7919 + i * 13 + 29)
         items.append(og.gen(r))
@@ -334,12 +377,17 @@ def run(ctx):
         if d.get("twin"):
             tc, tt = og.twin_text(d)
             jobs.append((d, tc, tt, d["twin"]))
+    t0 = time.time()
+    sc.sem_exe()          # build the verified evaluator once, before the worker threads need it
+    ctx.note("evaluator ready: %.1f s" % (time.time() - t0))
+    t0 = time.time()
     with cf.ThreadPoolExecutor(max_workers=12) as ex:
         results = list(ex.map(run_script, jobs))
+    ctx.note("scripts run and judged: %.1f s for %d runs" % (time.time() - t0, len(jobs)))
     by_item = {}
-    for (d, cmds, text, logic_run, rc, out, err) in results:
+    for (d, cmds, text, logic_run, rc, out, err, rec, info) in results:
         is_twin = logic_run != d["logic"]
-        info = analyse(ctx, d, cmds, text, logic_run, rc, out, err, is_twin)
+        rec.replay(ctx)
         by_item.setdefault(id(d), {})["twin" if is_twin else "own"] = (info, cmds, out)
     ndiff = 0
     for d in items:
